@@ -122,6 +122,10 @@ def r3_keyerror_discipline(R) -> None:
     hs = [n for n in f.cfg.nodes if n.kind == 'except']
     R.expect(q, len(hs), 2, 'exception handlers around the search methods')
     for h in hs:
+        broad = h.ast.type is None or text(h.ast.type).split('.')[-1] in ('Exception', 'BaseException')
+        R.check(broad, q, f'handler-breadth:{text(h.ast.type) if h.ast.type else "bare"}', 'every failure of a search method is translated (except Exception)',
+                f'handler `{h.label()}` catches only some exception classes: other failures of the search method (e.g. NotImplementedError for several '
+                f'matches) would escape instead of KeyError', where=f.where(h))
         body = h.ast.body
         ok = len(body) == 1 and isinstance(body[0], ast.Raise) and text(body[0].exc) == 'KeyError(period)' \
             and isinstance(body[0].cause, ast.Name) and body[0].cause.id == h.ast.name
